@@ -56,7 +56,7 @@ pub fn oracles(case: &Case, obs: &Observed) -> Vec<Finding> {
     // 2. misuse is Err
     for c in &obs.calls {
         if let Some(m) = c.misuse {
-            if c.res == "ok" && m != "first-image-subframe" && m != "indexed-no-palette" {
+            if c.res == "ok" && !judged_with_repairs(m) {
                 f.push(("oracle", format!("misuse-accepted/{}", m), format!("{} ({}) returned Ok although it is misuse: {}", c.kind.name(), c.what, m)));
             }
         }
@@ -158,6 +158,20 @@ fn report(ctx: &mut Ctx, case: &Case, table: &str, findings: Vec<Finding>) {
     }
 }
 
+/// Refused `Encoder` calls (`Cfg::mis`) leave no trace: the same program without them gives the same results and
+/// the same bytes (independent of the model, which is asked about the configuration without the calls anyway).
+fn refused_calls_leave_no_trace(case: &Case, obs: &Observed) -> Vec<Finding> {
+    let mut plain = case.clone();
+    plain.cfg.mis.clear();
+    let p = exec(&plain);
+    let same = p.bytes == obs.bytes && p.hdr == obs.hdr && p.steps == obs.steps && p.fin == obs.fin;
+    if same {
+        vec![]
+    } else {
+        vec![("oracle", "encoder-misuse/file-differs".into(), format!("after the refused Encoder calls `{}` the program gives hdr={} fin={} and {} bytes; without them hdr={} fin={} and {} bytes", case.cfg.mis, obs.hdr, obs.fin_string(case), obs.bytes.len(), p.hdr, p.fin_string(case), p.bytes.len()))]
+    }
+}
+
 fn sweep(ctx: &mut Ctx, rng: &mut Rng, base: &Case, full: bool) {
     let ff = exec(base);
     let table_ff = learn_table(base, &ff);
@@ -206,6 +220,12 @@ fn sweep(ctx: &mut Ctx, rng: &mut Rng, base: &Case, full: bool) {
             }
         }
         let mut findings = oracles(case, obs);
+        if !case.cfg.mis.is_empty() {
+            findings.extend(refused_calls_leave_no_trace(case, obs));
+            for (call, res) in &obs.enc_misuse {
+                ctx.rep.count("refused Encoder calls", &format!("{} -> {}", call.split('@').next().unwrap_or(""), res));
+            }
+        }
         let oracle_failed = !findings.is_empty();
         if *compare {
             let (mf, md) = compare_model(case, obs, &answers[k], table);
@@ -288,6 +308,21 @@ fn directed() -> Vec<Case> {
         v.push(mk(&format!("{},val=1", c), "sz1:2;sp1:0;S64[w0708]F;I01020304;I05060708;I090a0b0c", "F", "directed"));
         v.push(mk(&c, "sz2:1", "X64[w0708,w01020304,w05060708,w090a0b0c]F", "directed"));
     }
+    // refused calls on the `Encoder` (set_animated(0, _); set_sep_def_img / set_frame_delay / set_blend_op / set_dispose_op while
+    // it is not animated; with_info with half an animation): each is Err and the file is the one written without them
+    v.push(mk(&format!("{},mis=zsdboAF", g), "I01020304", "F", "directed"));
+    v.push(mk(&format!("{},val=1,mis=sz", g), "sd1:2;I01020304", "X4096[]F", "directed"));
+    v.push(mk(&format!("{},mis=dbozs", a), "I01020304;I05060708", "F", "directed"));
+    v.push(mk(&format!("{},sep=1,val=1,mis=zF", a), "I01020304;S4096[w05060708,w090a0b0c]F", "F", "directed"));
+    v.push(mk("w=2,h=2,c=0,d=8,an=0:0,fc=0:2:2:0:0:1:30:0:0,mis=z", "I01020304", "F", "directed"));
+    v.push(mk("w=2,h=2,c=0,d=8,an=0:5,fc=0:0:2:0:0:1:30:0:0,val=1", "-", "D", "directed"));
+    // `write` with an empty buffer (Ok(0), nothing happens — also in the states a sink failure leaves behind), the stream
+    // writers of the default size (`stream_writer()` / `into_stream_writer()`: 4096)
+    v.push(mk(g, "S4096[w,w0102,w,w0304,w]F", "F", "directed"));
+    v.push(mk(g, "-", "X4096[w,w01020304,w]F", "directed"));
+    v.push(mk(&format!("{},val=1", a), "-", "X4096[w01020304,w,w05060708,w,f,w]F", "directed"));
+    v.push(mk("w=2,h=1,c=0,d=8,an=2:0,comp=0,filt=0", "-", "X5[w,w0102,w,sz1:1,w03,w,f,w]F", "directed"));
+    v.push(mk(g, "S64[w01020304,w,w05,w]D", "X4096[w]D", "directed"));
     // sessions that end in the middle of an image (N10 / remainder of N11: open)
     v.push(mk(g, "S64[w0102]D;I01020304", "F", "directed"));
     v.push(mk(a, "I01020304;S64[]D;I05060708", "F", "directed"));
@@ -309,14 +344,56 @@ fn single(ctx: &mut Ctx, case: &Case) {
     report(ctx, case, &table.to_str(), findings);
 }
 
+/// An error no writer program provokes (`LimitsExceeded`) and the I/O kinds, built through the public constructors
+/// (`TextEncodingError` is crate-private: a failing text compressor cannot be built from outside): formatted, asked for their cause, converted into `io::Error` — never a panic, and the name
+/// the result strings of this harness use is the one the message stands for.
+fn constructed_errors(ctx: &mut Ctx) {
+    use png::EncodingError as E;
+    let cases: Vec<(&str, E, &str)> = vec![
+        ("limits", E::LimitsExceeded, "err:limits"),
+        ("io", E::from(std::io::Error::new(std::io::ErrorKind::Other, "injected")), "err:io"),
+        ("io-write-zero", E::from(std::io::Error::from(std::io::ErrorKind::WriteZero)), "err:writeZero"),
+    ];
+    for (name, e, want) in cases {
+        let _ = take_api_faults();
+        let shown = crate::util::guarded(|| e.to_string());
+        let r: Result<(), E> = Err(e);
+        let res = enc_res(&r);
+        let back = crate::util::guarded(move || r.map_err(std::io::Error::from).unwrap_err());
+        ctx.rep.eval(true, crate::rng::fnv64(name.as_bytes()));
+        ctx.rep.count("constructed errors", &format!("{} -> {}", name, res));
+        let case = crate::json::J::obj().set("constructed_error", crate::json::J::s(name));
+        for (class, what) in take_api_faults() {
+            ctx.rep.violation("oracle", &class, &what, case.clone());
+        }
+        if res != want {
+            ctx.rep.violation("oracle", "error-api/name", &format!("{}: the harness reads `{}`, expected `{}`", name, res, want), case.clone());
+        }
+        match (shown, back) {
+            (Ok(s), Ok(io)) => {
+                // `From<EncodingError> for io::Error` keeps the message (kind Other)
+                if io.to_string() != s || io.kind() != std::io::ErrorKind::Other {
+                    ctx.rep.violation("oracle", "error-api/into-io", &format!("{}: `{}` became io::Error `{}` ({:?})", name, s, io, io.kind()), case.clone());
+                }
+            }
+            (a, b) => ctx.rep.violation("oracle", "error-api/panic", &format!("{}: Display {:?}, into io::Error {:?}", name, a.err(), b.err()), case.clone()),
+        }
+    }
+}
+
 pub fn run(ctx: &mut Ctx) {
     ctx.rep.rule = "fault sweep over small writer programs (2x2 / tiny canvases, <= 6 operations; whole-image API, borrowed and owned stream writers, animated or not, validate on/off, misuse operations): \
         fault-free run, then a sink that fails at EVERY byte offset 0..=L (permanently / once), at every write call 0..C (permanently / once), at flush (permanently / once); larger random programs with 40 sampled offsets; \
         the program continues after a failed call.  Oracles per run: no panic; misuse (wrong data length, image beyond the declared ones under validate_sequence, zero / out-of-range setter arguments, setters on a non-animated writer) is Err; \
         validate_sequence: finish Ok <=> declared images written; finish Ok => complete chunk stream ending in exactly one IEND (and valid per the C12 validator when the program is in the C12 domain); never two IENDs; \
         a sink failure is reported by the call during which it happens (drops excepted).  Model: `c12 run` with the same sink for whole-image programs under byte-offset / flush faults (all results, accepted byte count, FNV of the bytes, IEND attempts). \
-        Fault-free stream-session programs are compared with the model as well (results, every chunk incl. all fcTL fields).         Directed: with_info frame controls that used to panic, extreme dimensions, requested chunk buffers of 0..6 bytes with animation (in-process: the former abort is repaired),         every stream-writer setter between frames, sessions ended in the middle of an image.  non-trivial = the injected fault fired (or a panic occurred); distinct = hash of program text + sink".into();
+        Fault-free stream-session programs are compared with the model as well (results, every chunk incl. all fcTL fields).         Directed: with_info frame controls that used to panic, extreme dimensions, requested chunk buffers of 0..6 bytes with animation (in-process: the former abort is repaired),         every stream-writer setter between frames, sessions ended in the middle of an image.  Refused calls on the Encoder (set_animated(0, _); set_sep_def_img / set_frame_delay / set_blend_op / set_dispose_op while it is not animated; with_info with only an animation control or only a frame control, \
+        or with zero frames): Err with the documented error, and results and bytes equal those of the same program without the calls (second real run; the model is asked about the configuration without them). \
+        `StreamWriter::write(&[])` inside sessions (directed and random; under every fault): Ok(0) without touching the sink, or the unrecoverable state a sink failure of the session left. Sessions of buffer size 4096 go through stream_writer() / into_stream_writer(). \
+        Every EncodingError received is formatted with Display and Debug and asked for cause()/source() (no panic, non-empty, a cause exactly for I/O errors); errors no program provokes (LimitsExceeded) are built through the public constructors. \
+        non-trivial = the injected fault fired (or a panic occurred); distinct = hash of program text + sink".into();
     let mut rng = ctx.rng.fork(19);
+    constructed_errors(ctx);
     for base in directed() {
         sweep(ctx, &mut rng, &base, true);
     }
@@ -331,6 +408,9 @@ pub fn run(ctx: &mut Ctx) {
         if rng.chance(1, 2) {
             cfg.anim = Some((rng.range(1, 3) as u32, 0));
             cfg.sep = rng.chance(1, 4);
+        }
+        if rng.chance(1, 4) {
+            cfg.mis = rand_mis(&mut rng);
         }
         let mut case = if i % 2 == 0 {
             let pct = if cfg.anim.is_some() { 50 } else { 40 };
